@@ -23,12 +23,12 @@ RULE = (
 ASSUMPTIONS = ["hyper-parameter gradients are compared with Richardson central differences of the real builder at 1e-6 of the matrix scale"]
 TIMEOUT = {"quick": 300, "thorough": 1800}
 REQUIRED = {"post:covariance_and_gradients": 100, "cases:cp3plus": 20, "cases:d>=2": 50, "cases:sum": 30,
-            "post:mean_and_gradients": 30, "gradient_entries_checked": 500, "operand_reuse_checks": 20}
+            "post:mean_and_gradients": 30, "gradient_entries_checked": 500, "operand_reuse_checks": 20, "cases:large_point_set": 8, "cases:far_from_origin": 40}
 
 
 def jobs(tier, seed):
     n_jobs = 16 if tier == "quick" else 32
-    return [{"name": f"cov-{j}", "seed": seed, "j": j, "n_cases": 60 if tier == "quick" else 400} for j in range(n_jobs)]
+    return [{"name": f"cov-{j}", "seed": seed, "j": j, "n_cases": 60 if tier == "quick" else 400, "n_large": 1 if tier == "quick" else 4} for j in range(n_jobs)]
 
 
 def standalone_labels(spec, x, prefix_free=True):
@@ -47,12 +47,16 @@ def run_job(job, rec):
     for c in range(job["n_cases"]):
         d = int(rng.choice([1, 1, 2, 2, 3]))
         n = int(rng.choice([2, 3, 5, 8, 12, 18, 25]))
-        x = G.random_points(rng, n, d)
         spec = G.fix_axes(G.random_spec(rng), rng, d)
+        # point clouds far from the origin (not with change-points: their location parameter would need steps below its rounding)
+        far = bool(rng.random() < 0.2) and G.count_cp_kernels(spec) == 0
+        x = G.random_points(rng, n, d, far=far)
         theta = G.random_theta(spec, rng, x, y_scale=10.0 ** rng.uniform(-2, 2))
         via_add = bool(rng.random() < 0.5)
         desc = G.describe(spec)
-        rec.context = {"case": c, "spec": desc, "n": n, "d": d, "via_add": via_add}
+        rec.context = {"case": c, "spec": desc, "n": n, "d": d, "via_add": via_add, "far_from_origin": far}
+        if far:
+            rec.count("cases:far_from_origin")
         K = guarded(G.build_repo_kernel, spec, via_add)
         if isinstance(K, Raised):
             rec.violation("raised", f"building {desc} raised {K!r}", rec.context)
@@ -275,6 +279,66 @@ def run_job(job, rec):
                   lambda: f"{name} mean(q) at the data points differs from build_mean by {np.abs(pts - ref_m).max():.3e}", mctx)
         labs = list(getattr(M, "hyperpar_labels", []))
         rec.check(len(labs) == len(tm), "mean-label-count", f"{name}: {len(labs)} labels for {len(tm)} parameters", mctx)
+
+    # ------------------------------------------------ large point sets (block-wise / chunked evaluation paths, if any, are taken)
+    for c in range(job.get("n_large", 1)):
+        d = int(rng.choice([1, 2, 3]))
+        n = int(rng.integers(*{1: (1030, 1500), 2: (730, 1000), 3: (600, 800)}[d]))
+        kern = [("SE",), ("RQ",), ("SUM", [("SE",), ("RQ",)]), ("SUM", [("RQ",), ("WN",)]), ("CP", 0, [("SE",), ("RQ",)])][(c + job["j"]) % 5]
+        spec = G.fix_axes(kern, rng, d)
+        x = G.random_points(rng, n, d)
+        theta = G.random_theta(spec, rng, x, y_scale=10.0 ** rng.uniform(-2, 2))
+        desc = G.describe(spec)
+        lctx = {"large_case": c, "spec": desc, "n": n, "d": d}
+        rec.context = lctx
+        K = guarded(G.build_repo_kernel, spec, False)
+        r = K if isinstance(K, Raised) else guarded(K.pass_spatial_data, x)
+        if isinstance(r, Raised):
+            rec.violation("raised", f"{desc} with {n} points raised {r!r}", lctx)
+            continue
+        m = int(rng.integers(3, 40))
+        u = x[rng.integers(0, n, size=m)] + rng.normal(size=(m, d)) * np.ptp(x, axis=0) * 0.05
+        rec.case(digest("large", desc, n, d), nontrivial=True)
+        rec.count("cases:large_point_set")
+        Kref = R.kernel(spec, x, x, theta, n)
+        scale = max(np.abs(Kref).max(), 1e-300)
+        for (a_, b_, ref, tag) in ((x, x, Kref, "xx"), (u, x, None, "ux"), (x, u, None, "xu")):
+            got = guarded(K, a_, b_, theta)
+            rec.count("post:__call__")
+            ref = R.kernel(spec, a_, b_, theta, n) if ref is None else ref
+            ok = (not isinstance(got, Raised)) and np.shape(got) == ref.shape and bool(np.abs(np.asarray(got) - ref).max() <= 1e-11 * scale)
+            rec.check(ok, "pairwise-value",
+                      lambda: f"{desc} pairwise [{tag}] on {n} points in {d}-D differs from the documented formula "
+                              f"({'raised ' + repr(got) if isinstance(got, Raised) else np.abs(np.asarray(got) - ref).max() if np.shape(got) == ref.shape else np.shape(got)})", lctx)
+        B = guarded(K.build_covariance, theta)
+        rec.count("post:build_covariance")
+        if isinstance(B, Raised):
+            rec.violation("raised", f"build_covariance raised {B!r}", lctx)
+            continue
+        D = np.asarray(B, float) - Kref
+        off = D - np.diag(np.diag(D))
+        rec.check(bool(np.abs(off).max() <= 1e-11 * scale), "builder-offdiagonal",
+                  lambda: f"{desc} ({n} points): builder and pairwise evaluation differ off the diagonal by {np.abs(off).max():.3e}", lctx)
+        KG = guarded(K.covariance_and_gradients, theta)
+        rec.count("post:covariance_and_gradients")
+        if isinstance(KG, Raised):
+            rec.violation("raised", f"covariance_and_gradients raised {KG!r}", lctx)
+            continue
+        rec.check(bool(np.abs(np.asarray(KG[0], float) - np.asarray(B, float)).max() <= 1e-12 * scale), "value-and-gradient-value",
+                  "covariance_and_gradients returns a different matrix than build_covariance", lctx)
+        # one randomly chosen gradient matrix against a central difference of the builder
+        npar = R.n_params(spec, n, d)
+        cps = cp_positions(spec, n, d, x)
+        cpi = {a for a, _ in cps} | {a + 1 for a, _ in cps}
+        i = int(rng.choice([k for k in range(npar) if k not in cpi]))
+        e = np.zeros(npar)
+        e[i] = 1e-4
+        numg = (np.asarray(K.build_covariance(theta + e), float) - np.asarray(K.build_covariance(theta - e), float)) / 2e-4
+        g = np.asarray(KG[1][i], float)
+        gs = max(np.abs(numg).max(), 1e-300)
+        rec.count("gradient_entries_checked")
+        rec.check(g.shape == (n, n) and bool(np.abs(g - numg).max() <= 1e-5 * gs + 50 * np.finfo(float).eps * scale / 1e-4), "hyperparameter-gradient",
+                  lambda: f"{desc} ({n} points): d K / d theta[{i}] differs from the central difference by {np.abs(g - numg).max() if g.shape == (n, n) else g.shape} (scale {gs:.3e})", lctx)
 
 
 def cp_positions(spec, n, d, x, offset=0):
